@@ -451,7 +451,7 @@ def main(argv=None):
     chk.trusted = ["T7: a^q = a^x on GT; conjugate = inverse on unitary elements; C04: square_cyclotomic = square on the cyclotomic subgroup, multiply, frobenius_map",
                    "C02: BigInt<256>::compare / subtract", "z3"]
     # lower layers whose specifications this check relies on: their obligations are part of this check's claim (framework.Check.include)
-    for dep in ['C02', 'C04', 'C18', 'C19']:
+    for dep in ['C02', 'C03', 'C04', 'C18', 'C19']:
         chk.include(dep)
     chk.run()
     chk.finish()
